@@ -144,10 +144,13 @@ def linkOk (t : DTree) (i : Nat) : Bool :=
     RP.Game.step? (t.game p) (actionAlong (t.game p) (t.game i) (t.edge i)) == some (t.game i) &&
     (t.menuOf p).contains (t.edge i)
 
-/-- `Node::realize`: bucket = (encode (recall history), abstraction, encode menu) -/
+/-- `Node::realize`: bucket = (encode (recall history), abstraction, encode menu); the stored
+    words also decode back to those lists (so equal words mean equal lists) -/
 def bucketOk (t : DTree) (i : Nat) : Bool :=
   RP.Codec.pathOfEdges (recall (t.history i)) == some (t.node i).hist &&
-  RP.Codec.pathOfEdges (t.menuOf i) == some (t.node i).menu
+  RP.Codec.pathOfEdges (t.menuOf i) == some (t.node i).menu &&
+  RP.Codec.pathToEdges (t.node i).hist == some (recall (t.history i)) &&
+  RP.Codec.pathToEdges (t.node i).menu == some (t.menuOf i)
 
 /-- children by turn: traverser → exactly the menu, each action once; opponent / chance →
     exactly one child; terminal → none -/
@@ -230,8 +233,8 @@ def sample (o : Oracle) (t : DTree) (i : Nat) : Option (List Branch) :=
 
 /-- the `while let Some(branch) = todo.pop()` loop with fuel -/
 def grow (o : Oracle) : Nat → DTree → List Branch → Option DTree
-  | 0, t, _ => some t
-  | _+1, t, [] => some t
+  | _, t, [] => some t
+  | 0, _, _ :: _ => none
   | f+1, t, todo =>
     match todo.getLast?, todo.dropLast with
     | some b, rest =>
